@@ -129,6 +129,7 @@ class Assembler:
         self.msgpack = msgpack
         self.pending = None
         self.atts = []
+        self.errors = []     # binary headers whose attachments never came
 
     def feed(self, frame):
         """Return a Pkt when one is complete, else None.  Undecodable input
@@ -154,6 +155,13 @@ class Assembler:
                 self.atts = []
                 return p
             return None
+        if self.pending is not None:
+            # a text frame while attachments are still due: the packet
+            # announced before can never be completed
+            self.errors.append(('incomplete', self.pending.key(),
+                                len(self.atts)))
+            self.pending = None
+            self.atts = []
         try:
             p = decode_header(frame)
         except Exception:
